@@ -703,7 +703,8 @@ class Exec:
     def bl(self, st, x):
         t = BL(x)
         fs = [t >= 0, z3.Implies(x == 0, t == 0), z3.Implies(x > 0, t >= 1)]
-        for k in (7, 8, 15, 16, 24, 32, 40):
+        # instances of the defining law of bit_length, x < 2^k <=> bit_length(x) <= k, at the thresholds contracts need
+        for k in (7, 8, 15, 16, 24, 32, 40) + tuple(getattr(self, 'bl_extra', ())):
             fs.append(z3.Implies(x >= 0, (x < 2 ** k) == (t <= k)))
         st.facts.extend(fs)
         return t
@@ -1209,6 +1210,48 @@ class Exec:
                 out += self.getattr(o, n.attr, s, ctx, n)
         return out
 
+    def init_default(self, o, attr, st):
+        """a scenario object is given by the fields its contract talks about; a field it does not mention but that the class's own
+        argument-less __init__ chain sets has the value __init__ gives it (every real object went through __init__). Returns that
+        value (immutable defaults only: None, numbers, booleans, strings, bytes, empty list/dict/bytearray) or None."""
+        if not isinstance(o, VObj) or o.cls not in self.repo.classes or getattr(self, '_in_init_default', False):
+            return None
+        cache = self.__dict__.setdefault('_init_defaults', {})
+        if o.cls not in cache:
+            cache[o.cls] = {}
+            lk = self.repo.lookup(o.cls, '__init__')
+            if lk and lk[0] == 'method' and len(lk[2].args.args) == 1 and not lk[2].args.vararg and not lk[2].args.kwonlyargs:
+                self._in_init_default = True
+                saved_obls, saved_hooks = list(self.obls), self.hooks
+                try:
+                    tmp = State()
+                    probe = VObj(o.cls, 'init-default!')
+                    self.hooks = {}
+                    outs = self.call_func(VFunc(lk[2], None, cls=lk[1], self_val=probe, mod=self.repo.classes[lk[1]].module), [], {}, tmp, {'mod': self.repo.classes[lk[1]].module})
+                    if len(outs) == 1 and not isinstance(outs[0][1], Raise):
+                        h = outs[0][0].heap
+                        for (ref, a), v in [(k, v) for k, v in h.items() if isinstance(k, tuple) and len(k) == 2 and k[0] == 'init-default!']:
+                            if isinstance(v, (VNone, VBool)) or (isinstance(v, VInt) and v.conc() is not None) or (isinstance(v, VStr) and isinstance(v.s, str)):
+                                cache[o.cls][a] = ('imm', v)
+                            elif isinstance(v, VList) and len(h.get(v.cell, ())) == 0:
+                                cache[o.cls][a] = ('list', None)
+                            elif isinstance(v, VDict) and len(v.of(outs[0][0])) == 0:
+                                cache[o.cls][a] = ('dict', None)
+                except (ToolLimit, Exception):
+                    cache[o.cls] = {}
+                finally:
+                    self._in_init_default = False
+                    self.obls[:] = saved_obls
+                    self.hooks = saved_hooks
+        ent = cache[o.cls].get(attr)
+        if ent is None:
+            return None
+        if ent[0] == 'imm':
+            return ent[1]
+        if ent[0] == 'list':
+            return self.new_list(st, [])
+        return VDict([])
+
     def getattr(self, o, attr, st, ctx, n=None):
         if attr == '__class__' and isinstance(o, VObj):
             return [(st, VClass(o.cls))]
@@ -1234,6 +1277,10 @@ class Exec:
                 return [(st, VFunc(lk[2], None, cls=lk[1], mod=self.repo.classes[lk[1]].module))]
             if lk and lk[0] == 'const':
                 return self.ev(lk[2], st.new_env(None), st, {'mod': self.repo.classes[lk[1]].module})
+            d = self.init_default(o, attr, st)
+            if d is not None:
+                st.heap[key] = d
+                return [(st, d)]
             return [(st, Raise('AttributeError:' + attr, getattr(n, 'lineno', None)))]
         if isinstance(o, VModule):
             q = o.mod + '.' + attr
